@@ -13,6 +13,14 @@ CLAIMED = {
     note='Trusted: clang-14 front end, ll2c translator (validated against the repository test-suite), CBMC, the abstract model in harness/C15_hist.c, '
          'vasprintf stub; allocation does not fail; values are non-NaN; operation kinds and resize shapes are enumerated, not symbolic.',
     design='DESIGN.md section 4 / C15'),
+ 'C05': dict(
+    technique='bounded symbolic model checking of the real vnadata_convert dispatch: clang-14 IR -> ll2c -> CBMC 6.11, recording stubs for the 90 vnaconv kernels, name-derived oracle',
+    text='Bounded proof with CBMC over the real vnadata_convert: for all 11 x 13 (from, to) type codes, shapes 2x2 / 3x3 / 1x2, ordinary and per-frequency z0, in-place and '
+         'out-of-place, 2 frequencies (0..2 in thorough) and ALL cell / frequency / impedance values: acceptance equals the documented validity rule; exactly one kernel call per '
+         'frequency, the kernel is vnaconv_<from>to<to> by name, with that frequency matrix and that frequency impedance vector; frequencies and impedances are carried over; refused '
+         'calls leave both objects untouched; after conversion to ZIN the object is a clean 1 x ports object.',
+    note='Trusted: clang, ll2c, CBMC; kernels are replaced by recording stubs generated from vnaconv.h (their numeric content is C04); the oracle table is derived from function names and vnadata(3).',
+    design='DESIGN.md section 4 / C05'),
  'C10': dict(
     technique='bounded symbolic model checking of the real range tests and interpolation kernels: clang-14 IR -> ll2c -> CBMC 6.11, IEEE-754 bit-precise comparisons (multiply/divide uninterpreted where stated)',
     text='Bounded proof with CBMC over the real code: (C10.a) the four range tests (check_single_frequency_range, vnacal_new_set_m_error, vnacal_get_parameter_value, '
